@@ -92,13 +92,16 @@ def sdl(schema, order=None, fold_extensions=True, declare_builtins=False):
         for b in BUILTIN_SCALARS:
             out.append("scalar %s" % b)
     exts = []
+    first_exts = []      # extensions written BEFORE the type they extend (legal: SDL is order independent)
     for i in idx:
         t = types[i]
         k = t["kind"]
         if k == "SCALAR":
             out.append("scalar %s" % t["name"])
         elif k == "ENUM":
-            out.append("enum %s {\n%s\n}" % (t["name"], "\n".join("  " + v for v in t["values"])))
+            dv = t.get("deprecated_values") or {}
+            out.append("enum %s {\n%s\n}" % (t["name"], "\n".join(
+                "  " + v + (_dep_sdl(dv[v]) if v in dv else "") for v in t["values"])))
         elif k == "UNION":
             out.append("union %s = %s" % (t["name"], " | ".join(t["members"])))
         elif k == "INTERFACE":
@@ -114,6 +117,13 @@ def sdl(schema, order=None, fold_extensions=True, declare_builtins=False):
                     base_fields, ext_fields = t["fields"], []
             ifaces = list(t.get("interfaces") or [])
             ext_ifaces = []
+            if not fold_extensions and not ext_fields and t.get("ext_interfaces"):
+                # an extension without fields: `extend type X implements I`
+                ext_ifaces = [i for i in ifaces if i in t["ext_interfaces"]]
+                ifaces = [i for i in ifaces if i not in ext_ifaces]
+                if ext_ifaces:
+                    (first_exts if t.get("ext_first") else exts).append(
+                        "extend type %s implements %s" % (t["name"], " & ".join(ext_ifaces)))
             if ext_fields:
                 # interfaces flagged ext are declared by the extension (`extend type X implements I {..}`)
                 ext_ifaces = [i for i in ifaces if i in (t.get("ext_interfaces") or [])]
@@ -123,7 +133,8 @@ def sdl(schema, order=None, fold_extensions=True, declare_builtins=False):
             out.append("type %s%s {\n%s\n}" % (t["name"], impl, _fields_sdl(base_fields)))
             if ext_fields:
                 eimpl = (" implements " + " & ".join(ext_ifaces)) if ext_ifaces else ""
-                exts.append("extend type %s%s {\n%s\n}" % (t["name"], eimpl, _fields_sdl(ext_fields)))
+                (first_exts if t.get("ext_first") else exts).append(
+                    "extend type %s%s {\n%s\n}" % (t["name"], eimpl, _fields_sdl(ext_fields)))
         elif k == "INPUT_OBJECT":
             one = " @oneOf" if t.get("oneOf") else ""
             lines = []
@@ -135,7 +146,8 @@ def sdl(schema, order=None, fold_extensions=True, declare_builtins=False):
             out.append("input %s%s {\n%s\n}" % (t["name"], one, "\n".join(lines)))
         else:
             raise ValueError(k)
-    return "\n\n".join(out + exts) + "\n"
+    head = out[:1] if (out and out[0].startswith("schema {")) else []
+    return "\n\n".join(head + first_exts + out[len(head):] + exts) + "\n"
 
 
 def _kind_of(schema, name):
@@ -218,8 +230,9 @@ def introspection_json(schema, order=None, wrapped=False, include_builtins=True,
         elif k == "UNION":
             o["possibleTypes"] = [_named_ref(schema, n) for n in t["members"]]
         elif k == "ENUM":
-            o["enumValues"] = [{"name": v, "description": None, "isDeprecated": False,
-                                "deprecationReason": None} for v in t["values"]]
+            dv = t.get("deprecated_values") or {}
+            o["enumValues"] = [{"name": v, "description": None, "isDeprecated": v in dv,
+                                "deprecationReason": (dv.get(v) or {}).get("reason")} for v in t["values"]]
         elif k == "INPUT_OBJECT":
             o["inputFields"] = [{"name": f["name"], "description": None,
                                  "type": type_ref_json(schema, f["type"]),
